@@ -307,6 +307,8 @@ fn concretise(img: &Value, t: &Table, rng: &mut StdRng) -> Built {
                 let rem = match tag.as_str() {
                     "rem0" => 0,
                     "remmax" => u64::MAX,
+                    "remwrap" => 0u64.wrapping_sub(sector),
+                    "remwrap1" => 1u64.wrapping_sub(sector),
                     _ => n,
                 };
                 block = L::encode_marker_block(sector, rem, st as u8);
